@@ -267,6 +267,39 @@ def sweep_form():
     return f
 
 
+def nbsp_forms(ctx):
+    """Spreadsheet containers: the extra blank inside (or around) a survey cell is a no-break space - what pasting from a word processor or the web
+    leaves behind. The spreadsheet readers turn it into an ordinary blank, so it is as neutral as any other extra whitespace."""
+    for i in range(64 if ctx.tier == "quick" else 640):
+        if not ctx.mine(i):
+            continue
+        rng = ctx.rng("nbsp", i)
+        form = base_form(rng)
+        sheets = form.to_sheets()
+        h, rows = sheets["survey"]
+        trows = [list(r) for r in rows]
+        cells = [(ri, ci) for ri, r in enumerate(trows) for ci, c in enumerate(r) if isinstance(c, str) and c and h[ci] is not None]
+        spaced = [(ri, ci) for ri, ci in cells if " " in trows[ri][ci]]
+        n = 0
+        for _ in range(rng.randint(1, 4)):
+            style = rng.randrange(3)
+            if style < 2 and spaced:
+                ri, ci = rng.choice(spaced)
+                parts = trows[ri][ci].split(" ")
+                k = rng.randrange(len(parts) - 1)
+                parts[k] = parts[k] + rng.choice(["\u00a0", "\u00a0\u00a0", " \u00a0"]) if style == 0 else "\u00a0" + parts[k] if k else parts[k] + "\u00a0"
+                trows[ri][ci] = " ".join(parts)
+            else:
+                ri, ci = rng.choice(cells)
+                trows[ri][ci] = rng.choice(["\u00a0", " \u00a0", ""]) + trows[ri][ci] + rng.choice(["\u00a0", "\u00a0 "])
+            n += 1
+        tsheets = dict(sheets)
+        tsheets["survey"] = (list(h), trows)
+        fmt = ("xlsx", "xls")[i % 2]
+        ctx.ctr("nbsp_whitespace_cases")
+        compare(ctx, form, sheets, tsheets, [f"whitespace-nbsp:survey:{n}"], {}, common.feature_sig(form) + f"|nbsp|{fmt}", fmt)
+
+
 def column_sweep(ctx):
     """Every catalogued column header, alone, in each case/spacing style: the random pick of t_header_case reaches rare columns too seldom."""
     form = sweep_form()
@@ -340,6 +373,7 @@ def run_shard(ctx):
     pl = plan(ctx.tier, ctx.seed)
     names = list(spelling.BY_NAME)
     column_sweep(ctx)
+    nbsp_forms(ctx)
     for i in range(pl["n"]):
         if not ctx.mine(i):
             continue
